@@ -1,4 +1,5 @@
 """C17 — supplementary-group answers equal the group and user databases."""
+import time
 import itertools, json, os, re
 from concurrent.futures import ThreadPoolExecutor
 import vlib
@@ -501,7 +502,74 @@ def gallina_build_expr(line):
             % (pws, dbs, pairs))
 
 
+def live_refresh_phase(ctx):
+    """The whole daemon, as deployed: started in the foreground (-F) and the way the shipped service file starts it (forked
+    into the background), on substituted group/user databases.  A database edit followed by SIGHUP must be reflected by the
+    answers (a GID-restricted credential decoded by a member through the supplementary-group path), with the periodic
+    refresh switched off (--group-update-time=0) so that only the SIGHUP can have caused it."""
+    import rig, credcorr
+    exe, err = rig.build_daemon(ctx, name="munged-c17live", san="address",
+                                extra_src=[os.path.join(vlib.HARNESS, "nss_shim.c")], wraps=credcorr.NSS_WRAPS)
+    if exe is None:
+        ctx.violation("munged does not build with the NSS shim: " + err[-300:], {"obligation": "build (live refresh)"}, found_input=False)
+        return
+    ANY = 0xFFFFFFFF
+    for fg in (True, False):
+        mode = "foreground (-F)" if fg else "background (daemonized)"
+        db = {"groups": [(700, ["ann"]), (701, ["bob"])], "users": [("ann", 3001), ("bob", 3002), ("cat", 3003)]}
+        d = rig.Daemon(ctx, exe, tag="c17live", nthreads=2, nss_db=db, foreground=fg)
+        if not d.start():
+            ctx.violation("munged does not start in %s mode" % mode, {"obligation": "start (live refresh)"}, found_input=False)
+            continue
+        try:
+            time.sleep(0.4)
+
+            def member(uid, gid):
+                r, st = rig.encode(d.sock, uid=9, gid=9, auth_gid=gid, data=b"m")
+                if r is None or r["error_num"] != 0:
+                    return None
+                q, st = rig.decode(d.sock, r["data"], uid=uid, gid=60000)
+                return None if q is None else (q["error_num"] == 0)
+            hist = []
+            before = (member(3002, 700), member(3001, 700))
+            hist.append("initial: bob in 700 -> %s, ann in 700 -> %s" % before)
+            steps = [({"groups": [(700, ["ann", "bob"]), (701, [])], "users": db["users"]}, (3002, 700, True), (3002, 701, False)),
+                     ({"groups": [(700, ["cat"]), (701, ["bob"])], "users": db["users"]}, (3003, 700, True), (3001, 700, False))]
+            ok = before == (False, True)
+            why = None if ok else "initial answers wrong: %s" % (before,)
+            for ndb, (u1, g1, w1), (u2, g2, w2) in steps:
+                if why:
+                    break
+                d.write_nss(ndb)
+                d.sighup(settle=0.2)
+                got = None
+                t0 = time.time()
+                while time.time() - t0 < 6.0:
+                    got = (member(u1, g1), member(u2, g2))
+                    if got == (w1, w2):
+                        break
+                    time.sleep(0.25)
+                hist.append("edit + SIGHUP: is_member(%d,%d) -> %s (databases say %s), is_member(%d,%d) -> %s (databases say %s)"
+                            % (u1, g1, got[0], w1, u2, g2, got[1], w2))
+                ctx.count(("live-refresh", fg, u1, g1))
+                if got != (w1, w2):
+                    why = ("munged running in the %s: 6 s after a database edit followed by SIGHUP it still answers is_member(uid=%d, gid=%d) = %s "
+                           "(databases: %s) and is_member(uid=%d, gid=%d) = %s (databases: %s): the SIGHUP did not lead to a refresh"
+                           % (mode, u1, g1, got[0], w1, u2, g2, got[1], w2))
+            if why:
+                ctx.violation(why, {"mode": mode, "history": hist, "log_tail": d.log_text()[-1500:]})
+        finally:
+            rc, rep = d.stop()
+        if rep.strip():
+            ctx.violation("sanitizer report from munged in the live refresh phase (%s)" % mode, {"report": rep[:3000]}, found_input=False)
+
+
 def run(ctx):
+    _run_component(ctx)
+    live_refresh_phase(ctx)
+
+
+def _run_component(ctx):
     ctx.level = "proof"
     proved = vlib.prove(ctx, ["Properties_C17.v", "Properties_C17_refresh.v"], facts=["gids"])
     read_facts()
